@@ -170,7 +170,7 @@ class World:
 
     def inject(self):
         rng = self.rng
-        kind = rng.choice(["inv-local", "inv-private", "dup-ord", "dup-local", "dup-export", "ghost-export", "undefined", "inc-private"])
+        kind = rng.choice(["inv-local", "inv-private", "dup-ord", "dup-local", "dup-export", "dup-export-all", "ghost-export", "undefined", "inc-private"])
         u = rng.choice(self.units)
         if kind == "inv-local":
             sc = self.scopes_of(u)
@@ -229,6 +229,20 @@ class World:
                     v.lines.append(("olabel", nm, True))
                 else:
                     v.lines.append(("const", nm, ("lit", self.next_marker()), True))
+        elif kind == "dup-export-all":
+            # a unit that exports nothing so far defines a name another unit exports, and then says '.extern all'
+            # (before or after that definition, in either link order)
+            quiet = [w for w in self.units if not any(i == w.idx for (i, _l) in self.export_form) and not w.style_all]
+            cands = [(l, eu, w) for l, eu in sorted(self.exported.items(), key=lambda kv: kv[0]) for w in quiet if w is not eu]
+            if not cands:
+                kind = "undefined"
+                u.lines.append(("ref", "nowhere", "nowhere", False))
+            else:
+                l, eu, w = rng.choice(cands)
+                nm = eu.own[l][0]
+                if l not in w.own and not any(ln[0] in ("olabel", "const") and ln[1].lower() == l for ln in w.lines):
+                    w.lines.insert(rng.randrange(len(w.lines) + 1), rng.choice([("olabel", nm, False), ("const", nm, ("lit", self.next_marker()), False)]))
+                w.lines.insert(rng.randrange(len(w.lines) + 1), ("extern_all", rng.choice(["all", "ALL"])))
         elif kind == "ghost-export":
             u.lines.insert(rng.randrange(len(u.lines) + 1), ("extern", ["ghost"]))
             v = rng.choice(self.units)
